@@ -38,6 +38,18 @@ def step (n : Node) (op : List String) : Node × String :=
         | .ok => "ok"
         | .woke u v => s!"ok woke={u}:{v}")
     | none => (n, "bad-op")
+  | ["refresh", p, d, amt] =>
+    match Driver.parseNat p, parseDir d, Driver.parseNat amt with
+    | some p, some d, some amt =>
+      if p < nPeer then
+        if !n.active.isEmpty then (n, "busy") else
+        match n.fwd p with
+        | none => (n, "nocheque")
+        | some a =>
+          let (n', touched) := n.refreshUpdate a d amt
+          (n', s!"ok upd={if touched then "blocked" else "seq"} mem={n'.memR a}/{n'.memT a} st={(n'.stR a).getD 0}/{(n'.stT a).getD 0}")
+      else (n, "bad-op")
+    | _, _, _ => (n, "bad-op")
   | ["restart"] => (n.restart, "ok")
   | ["get", p] =>
     match Driver.parseNat p with
